@@ -59,6 +59,27 @@ template<class T> static uint64_t ref(unsigned f, uint64_t x, bool* defined) {
     }
 }
 
+// fast second implementation of the oracle on compiler builtins (used alone in the 2^32 sweeps; everywhere else it is cross-checked
+// against the bit loops and a disagreement is reported as a harness error, not as a violation)
+static bool g_fast_oracle_only = false;
+template<class T> static uint64_t ref_fast(unsigned f, uint64_t x, bool* defined) {
+    const unsigned B = elem<T>::bits; const uint64_t m = elem<T>::mask();
+    x &= m; *defined = true;
+    switch (f) {
+    case F_popcount: return (uint64_t)__builtin_popcountll(x);
+    case F_countl_zero: return x ? (uint64_t)__builtin_clzll(x) - (64 - B) : B;
+    case F_countl_one: { uint64_t y = (~x) & m; return y ? (uint64_t)__builtin_clzll(y) - (64 - B) : B; }
+    case F_countr_zero: return x ? (uint64_t)__builtin_ctzll(x) : B;
+    case F_countr_one: { uint64_t y = (~x) & m; return y ? (uint64_t)__builtin_ctzll(y) : B; }
+    case F_bit_width: return x ? 64 - (uint64_t)__builtin_clzll(x) : 0;
+    case F_bit_floor: if (elem<T>::is_signed && (x >> (B - 1))) { *defined = false; return 0; } return x ? (uint64_t(1) << (63 - __builtin_clzll(x))) : 0;
+    case F_bit_ceil: { if (elem<T>::is_signed && (x >> (B - 1))) { *defined = false; return 0; } if (x <= 1) return 1; unsigned w = 64 - (unsigned)__builtin_clzll(x - 1); return w >= B ? 0 : (uint64_t(1) << w); }
+    case F_byteswap: return __builtin_bswap64(x) >> (64 - B);
+    case F_countl_sign: { uint64_t y = (x ^ (x << 1)) & m & ~uint64_t(1); y >>= 1; /* bit i set iff bit i and bit i+1 of x differ */ uint64_t d = (x ^ (x >> 1)) & (m >> 1); return d ? (uint64_t)__builtin_clzll(d) - (64 - (B - 1)) : B - 1; }
+    default: return (uint64_t)(__builtin_popcountll(x) == 1);
+    }
+}
+
 // ---- which functions does a type provide? (SFINAE; explicit constructors make these exact) ----
 #define DEF_HAS(fn) \
     template<class X, class R> struct has_##fn { \
@@ -179,8 +200,12 @@ template<class V> static void run(const VpCase* c, VpOutcome* o) {
     }
     if (!have) { o->status = 2; return; }
     for (unsigned i = 0; i < W; ++i) {
-        bool def; exp[i] = ref<T>(f, c->v[0][i], &def); cmp[i] = def;
-        classify<T>(c->v[0][i], o);
+        bool def, def2; exp[i] = ref_fast<T>(f, c->v[0][i], &def); cmp[i] = def;
+        if (!g_fast_oracle_only) {
+            uint64_t slow = ref<T>(f, c->v[0][i], &def2);
+            if (def != def2 || (def && slow != exp[i])) { o->status = 1; std::snprintf(o->tag, sizeof o->tag, "harness-inconsistent"); std::snprintf(o->msg, sizeof o->msg, "bit-loop oracle and builtin oracle disagree for %s(0x%llx): %llx vs %llx", OPS[op].name, (unsigned long long)c->v[0][i], (unsigned long long)slow, (unsigned long long)exp[i]); return; }
+            classify<T>(c->v[0][i], o);
+        }
     }
     char tag[96]; std::snprintf(tag, sizeof tag, "value");
     cmp_lanes(o, W, exp, got, cmp, tag, OPS[op].name);
@@ -245,13 +270,15 @@ template<class V> static void sweep32(unsigned t, uint32_t shard, uint32_t nshar
         VpCase c; std::memset(&c, 0, sizeof c); c.target = t; c.op = op;
         { VpOutcome po; std::memset(&po, 0, sizeof po); run<V>(&c, &po); if (po.status == 2) continue; }
         bool failed = false;
+        g_fast_oracle_only = true;
         for (uint64_t base = (uint64_t)shard * W; base < (uint64_t(1) << 32) && !failed; base += (uint64_t)nshards * W) {
             for (unsigned i = 0; i < W; ++i) c.v[0][i] = (base + i) & 0xFFFFFFFFull;
             VpOutcome o; std::memset(&o, 0, sizeof o); o.bad_lane = -1;
             run<V>(&c, &o);
             ++*evals; *lanes += o.lanes_compared;
-            if (o.status == 1) { emit(&c, ctx); failed = true; }
+            if (o.status == 1) { g_fast_oracle_only = false; emit(&c, ctx); g_fast_oracle_only = true; failed = true; }
         }
+        g_fast_oracle_only = false;
     }
 }
 
